@@ -24,7 +24,7 @@ func init() {
 			"Get/Get1 probed only inside the bitmap"},
 		Flavours: releaseAnd386,
 		Required: []string{"of/empty-list", "of/n-absent", "of/n-negative", "of/n<last+1", "of/n>last+1", "of/last%64=63", "of/last%64=0", "probe/negative", "probe/beyond", "probe/maxint32", "probe/minint32",
-			"ofmany/pos>=size", "ofmany/size=0", "ofmany/empty-sub", "builder/extend-pos>=size", "builder/extend-size=0", "builder/extend-empty", "builder/set-0", "builder/set-1", "builder/presized", "builder/over-dirty-capacity", "roundtrip/trailing-zero-words", "probe/bitmap>=2^31-bits"},
+			"ofmany/pos>=size", "ofmany/size=0", "ofmany/empty-sub", "ofmany/segments-carved-from-one-arena", "builder/extend-pos>=size", "builder/extend-size=0", "builder/extend-empty", "builder/set-0", "builder/set-1", "builder/presized", "builder/over-dirty-capacity", "roundtrip/trailing-zero-words", "probe/bitmap>=2^31-bits"},
 		Families: func(c *mon.Config) []mon.Family {
 			return []mon.Family{
 				{Name: "of", Env: 6, N: c.Pick(40000, 4000000), Run: c12Of},
@@ -401,9 +401,52 @@ func c12OfMany(w *mon.W, idx int) {
 	if !asc {
 		return // outside Of's domain (merged list not ascending)
 	}
+	// the segments as a caller holds them: separate slices, or views carved from ONE arena (each view's spare
+	// capacity is the rest of the arena, i.e. the other segments), laid out in call order or in reverse
+	var arena, arena0 []int32
+	if layout := (idx / 3) % 3; layout != 0 && len(subs) >= 2 {
+		order := make([]int, len(subs))
+		for i := range order {
+			order[i] = i
+			if layout == 2 {
+				order[i] = len(subs) - 1 - i
+			}
+		}
+		at := make([]int, len(subs))
+		for _, i := range order {
+			at[i] = len(arena)
+			arena = append(arena, subs[i]...)
+		}
+		arena = append(arena, poisonI, poisonI)
+		for i := range subs {
+			subs[i] = arena[at[i] : at[i]+len(subs[i])]
+		}
+		arena0 = append([]int32(nil), arena...)
+		w.Bucket("ofmany/segments-carved-from-one-arena")
+	}
 	w.Op, w.Obj = "OfMany", nil
-	got := bitmap.OfMany(subs, sizes)
+	qSizes, gSizes := dirtyI32(sizes)
+	outer := make([][]int32, len(subs)+3)
+	sentinel := []int32{poisonI}
+	for i := range outer {
+		outer[i] = sentinel
+	}
+	copy(outer[1:], subs)
+	qSubs := outer[1 : 1+len(subs) : len(subs)+2]
+	if len(subs) == 0 && idx%2 == 0 {
+		qSubs, qSizes = nil, nil
+	}
+	got := bitmap.OfMany(qSubs, qSizes)
 	w.Eval(1)
+	if !gSizes() || !eqI32(qSizes, sizes) || len(outer[0]) != 1 || len(outer[1+len(subs)]) != 1 || len(outer[2+len(subs)]) != 1 || &outer[0][0] != &sentinel[0] || &outer[1+len(subs)][0] != &sentinel[0] {
+		w.Fail("OfMany/wrote-outside-len-of-argument", mon.D{"sizes": sizes, "what": "the sizes slice, or the cells next to the sizes / segment-list arguments (before, between len and cap) changed"})
+		return
+	}
+	if !eqI32(arena, arena0) {
+		w.Fail("OfMany/wrote-into-the-callers-segments", mon.D{"sizes": sizes, "arena_before": trunc32(arena0, 24), "arena_after": trunc32(arena, 24),
+			"what": "the segments are views of one array; after the call the array holds other values (a write through the spare capacity of a segment)"})
+		return
+	}
 	nbits := int(base)
 	if len(merged) > 0 && int(merged[len(merged)-1])+1 > nbits {
 		nbits = int(merged[len(merged)-1]) + 1
@@ -462,9 +505,17 @@ func c12Builder(w *mon.W, idx int) {
 			s := segs[0]
 			w.Op, w.A = "Builder.Extend", int64(s.size)
 			in := append([]int32(nil), s.pos...)
-			b.Extend(s.pos, s.size)
-			if !eqI32(in, s.pos) {
+			qPos, gPos := dirtyI32(s.pos)
+			if s.pos == nil {
+				qPos, gPos = nil, func() bool { return true }
+			}
+			b.Extend(qPos, s.size)
+			if !eqI32(in, qPos) {
 				w.Fail("Builder.Extend/input-modified", mon.D{"history": hist})
+				return
+			}
+			if !gPos() {
+				w.Fail("Builder.Extend/wrote-outside-len-of-argument", mon.D{"history": hist, "positions": in})
 				return
 			}
 			for _, p := range in {
